@@ -49,7 +49,7 @@ func c03Alphabet(thorough bool) []string {
 	}
 	// nested addresses: a binding of [1]/1 does not authorise [1,1]/1, a binding to L[1] does not open L[1,1], and vice versa
 	a = append(a, "bind:A:e11f1:L1lc:lc:d", "bind:A:e1f1:L11lc:lc:d", "unbind:A:e11f1:L1lc:d",
-		"write:A:e11f1:L1lc:limit:ack:2", "write:A:e1f1:L11lc:limit:ack:2", "write:A:e11f1:L11lc:limit:ack:2", "entrm:A:11")
+		"write:A:e11f1:L1lc:limit:ack:2", "write:A:e1f1:L11lc:limit:ack:2", "write:A:e11f1:L11lc:limit:ack:2", "entrm:A:11", "entrm:A:1:bad")
 	// the device part of the source address in the header: naming the other peer's device (which uses the same
 	// numbers and may hold the binding) or omitting it does not change who the writer is
 	a = append(a, "write:B:e1f1:L1lc:limit:ack:2:x", "write:A:e1f1:L1lc:limit:ack:2:n", "write:A:e1f1:L2lc:limit:noack:1:x")
